@@ -20,21 +20,26 @@ type hookFn func(point, arg string, n int)
 var hookMux struct {
 	once     sync.Once
 	mu       sync.RWMutex
-	byPrefix map[string]hookFn
+	byPrefix map[int]prefixHook
 	global   map[int]hookFn
 	next     int
 }
 
+type prefixHook struct {
+	prefix string
+	fn     hookFn
+}
+
 func hooksInit() {
 	hookMux.once.Do(func() {
-		hookMux.byPrefix = map[string]hookFn{}
+		hookMux.byPrefix = map[int]prefixHook{}
 		hookMux.global = map[int]hookFn{}
 		cdi.VerifSetHook(func(point, arg string, n int) {
 			hookMux.mu.RLock()
 			var hs []hookFn
-			for p, h := range hookMux.byPrefix {
-				if strings.HasPrefix(arg, p) {
-					hs = append(hs, h)
+			for _, h := range hookMux.byPrefix {
+				if strings.HasPrefix(arg, h.prefix) {
+					hs = append(hs, h.fn)
 				}
 			}
 			for _, h := range hookMux.global {
@@ -53,11 +58,13 @@ func hooksInit() {
 func hookPrefix(prefix string, h hookFn) func() {
 	hooksInit()
 	hookMux.mu.Lock()
-	hookMux.byPrefix[prefix] = h
+	hookMux.next++
+	id := hookMux.next
+	hookMux.byPrefix[id] = prefixHook{prefix, h}
 	hookMux.mu.Unlock()
 	return func() {
 		hookMux.mu.Lock()
-		delete(hookMux.byPrefix, prefix)
+		delete(hookMux.byPrefix, id)
 		hookMux.mu.Unlock()
 	}
 }
@@ -79,15 +86,16 @@ func hookGlobal(h hookFn) func() {
 // autoCache is an auto-refresh cache with an anchor directory used for
 // logical quiescence. The anchor must be among the configured directories.
 type autoCache struct {
-	C       *cdi.Cache
-	Anchor  string
-	seq     int
-	seen    chan string
-	unhook  func()
-	Events  map[string]int64 // events the watcher hook saw, by op string
-	evMu    sync.Mutex
-	nEvents atomic.Int64
-	hold    atomic.Pointer[chan struct{}] // when set, the watcher is held at its next event
+	C             *cdi.Cache
+	Anchor        string
+	seq           int
+	seen          chan string
+	unhook        func()
+	Events        map[string]int64 // events the watcher hook saw, by op string
+	evMu          sync.Mutex
+	nEvents       atomic.Int64
+	SentinelsLost atomic.Int64
+	hold          atomic.Pointer[chan struct{}] // when set, the watcher is held at its next event
 }
 
 var opNames = []struct {
@@ -161,24 +169,37 @@ func (a *autoCache) Hold() (release func()) {
 // directory and waits until the watcher hook reports it. false = watchdog
 // fired (inconclusive, never a verdict).
 func (a *autoCache) Quiesce() bool {
-	a.seq++
-	name := fmt.Sprintf(".q%d.sentinel", a.seq)
-	f, err := os.Create(filepath.Join(a.Anchor, name))
-	if err != nil {
-		return false
-	}
-	f.Close()
-	deadline := time.After(30 * time.Second)
-	for {
-		select {
-		case got := <-a.seen:
-			if got == name {
-				return true
-			}
-		case <-deadline:
+	// Up to 6 sentinels, 1,1,2,4,8,16 s apart: seeing ANY of them proves that everything
+	// queued before the first one has been handled (or dropped) by the watcher.
+	// A sentinel that is never reported is counted (SentinelsLost): the watcher
+	// lost an event; the deciding oracle is still the comparison made afterwards.
+	var names []string
+	for try := 0; try < 6; try++ {
+		a.seq++
+		name := fmt.Sprintf(".q%d.sentinel", a.seq)
+		f, err := os.Create(filepath.Join(a.Anchor, name))
+		if err != nil {
 			return false
 		}
+		f.Close()
+		names = append(names, name)
+		deadline := time.After([]time.Duration{1, 1, 2, 4, 8, 16}[try] * time.Second)
+	wait:
+		for {
+			select {
+			case got := <-a.seen:
+				for i, n := range names {
+					if got == n {
+						a.SentinelsLost.Add(int64(i))
+						return true
+					}
+				}
+			case <-deadline:
+				break wait
+			}
+		}
 	}
+	return false
 }
 
 func (a *autoCache) Close() {
